@@ -84,6 +84,16 @@ type Hint struct {
 	At   string // "" | "ret"
 	E    Expr
 	Src  string
+	// instance: while proving the clause Label, the loop invariant SrcLabel of loop SrcLoop is
+	// instantiated (in the state of that loop's head, where it is assumed) at the given terms
+	SrcLoop  int
+	SrcLabel string
+	Binds    []LetBind
+}
+
+type LetBind struct {
+	Name string
+	E    Expr
 }
 
 type SpecFunc struct {
@@ -93,6 +103,7 @@ type SpecFunc struct {
 	Ret    string
 	Body   Expr // nil: uninterpreted
 	Rec    bool
+	Opaque bool
 	Mode   string // "" (both) | bv | int
 	Src    string
 	File   string
@@ -570,6 +581,26 @@ func (cs *Contracts) LoadContractFile(path, pkg string) error {
 				return err
 			}
 			cur.Hints = append(cur.Hints, Hint{Kind: "established", Loop: -1, At: eat, Writer: fs[0], Field: fs[1], Label: c.Label, E: c.E, Src: fs[2]})
+		case "instance":
+			// instance @target of loop N @source with x = e1, y = e2
+			m := reInstance.FindStringSubmatch(rest)
+			if m == nil {
+				return fail("instance needs: @target of loop N @source with x = e, ...")
+			}
+			n, _ := strconv.Atoi(m[2])
+			h := Hint{Kind: "instance", Loop: -2, Label: m[1], SrcLoop: n, SrcLabel: m[3], Src: rest}
+			for _, b := range splitTop(m[4]) {
+				i := strings.Index(b, "=")
+				if i < 0 {
+					return fail("instance binding needs name = expr")
+				}
+				e, err := ParseExpr(strings.TrimSpace(b[i+1:]))
+				if err != nil {
+					return fail("%v", err)
+				}
+				h.Binds = append(h.Binds, LetBind{strings.TrimSpace(b[:i]), e})
+			}
+			cur.Hints = append(cur.Hints, h)
 		case "unfold", "use", "assume":
 			at := ""
 			if strings.HasPrefix(rest, "@ret ") {
@@ -672,6 +703,8 @@ func splitWord(s string) (string, string) {
 	return s[:i], strings.TrimSpace(s[i+1:])
 }
 
+var reInstance = regexp.MustCompile(`^@(\S+)\s+of\s+loop\s+(\d+)\s+@(\S+)\s+with\s+(.*)$`)
+
 func splitList(s string) []string {
 	var out []string
 	for _, p := range strings.Split(s, ",") {
@@ -718,6 +751,13 @@ func parseSpec(s string) (*SpecFunc, error) {
 		}
 		if w == "rec" {
 			sf.Rec = true
+			s = r
+			continue
+		}
+		if w == "opaque" {
+			// an uninterpreted symbol with its definition as a quantified axiom triggered by the
+			// application itself: usable as a pattern (a define-fun macro is not), no unfolding needed
+			sf.Opaque = true
 			s = r
 			continue
 		}
